@@ -1,8 +1,8 @@
 """
 Recording / crash-injecting interposer for file-system effects (C17).
 
-While active, every mutating file-system call made by the code under test through io.open / open, os.open,
-os.replace, os.rename, os.mkdir, os.unlink / os.remove, os.rmdir, os.utime, os.truncate, os.link, os.symlink is
+While active, every mutating file-system call made by the code under test through io.open / open, os.open (also
+os.fdopen of such a descriptor, and os.write on it), os.replace, os.rename, os.mkdir, os.unlink / os.remove, os.rmdir, os.utime, os.truncate, os.link, os.symlink is
 recorded as an *effect*. Files opened for writing are replaced by a proxy that performs the truncation / creation
 immediately (as the OS does) and buffers written data like a buffered writer: each flush is one write effect of n bytes.
 
@@ -20,7 +20,7 @@ from contextlib import contextmanager
 _real = {
     "io_open": io.open, "os_open": os.open, "replace": os.replace, "rename": os.rename, "mkdir": os.mkdir,
     "unlink": os.unlink, "remove": os.remove, "rmdir": os.rmdir, "utime": os.utime, "truncate": os.truncate,
-    "link": os.link, "symlink": os.symlink,
+    "link": os.link, "symlink": os.symlink, "write": os.write, "fsync": os.fsync,
 }
 
 
@@ -34,6 +34,7 @@ class Session:
         self.plan = plan           # (effect index, byte offset) or None
         self.crashed = False
         self.deny_read = set(deny_read or [])   # paths whose opening raises PermissionError
+        self.write_fds = {}        # descriptors opened for writing through os.open: fd -> path
 
     # -- bookkeeping
     def before(self, kind, path, n=0):
@@ -53,7 +54,7 @@ class Session:
 class WriteProxy:
     """Stands for a file opened for writing. Creation / truncation happen at open time."""
 
-    def __init__(self, session: Session, path, mode, encoding, buffering_limit=8192):
+    def __init__(self, session: Session, path, mode, encoding, buffering_limit=8192, fd=None):
         self.s = session
         self.path = os.fspath(path)
         self.encoding = "utf-8" if encoding in (None, "locale") else encoding
@@ -63,6 +64,10 @@ class WriteProxy:
         self.limit = buffering_limit
         self.name = self.path
         self.mode = mode
+        if fd is not None:
+            # adopts a descriptor that was opened (and recorded) through os.open: os.fdopen(os.open(...), "w")
+            self.fd = fd
+            return
         kind = "open-append" if "a" in mode else ("open-excl" if "x" in mode else "open-trunc")
         if "r" in mode and "+" in mode:
             kind = "open-rw"
@@ -106,9 +111,9 @@ class WriteProxy:
         allowed = self.s.before("write", self.path, len(data))
         if allowed is not None:
             if allowed:
-                os.write(self.fd, data[:allowed])
+                _real["write"](self.fd, data[:allowed])
             raise SimulatedCrash()
-        os.write(self.fd, data)
+        _real["write"](self.fd, data)
 
     def close(self):
         if self.closed:
@@ -152,6 +157,8 @@ class WriteProxy:
 def interpose(session: Session):
     def p_open(file, mode="r", buffering=-1, encoding=None, errors=None, newline=None, closefd=True, opener=None):
         if isinstance(file, int):
+            if file in session.write_fds and any(c in mode for c in "wax+"):
+                return WriteProxy(session, session.write_fds[file], mode, encoding, fd=file)
             return _real["io_open"](file, mode, buffering, encoding, errors, newline, closefd, opener)
         path = os.fspath(file)
         if session.crashed:
@@ -171,7 +178,26 @@ def interpose(session: Session):
             session.before(kind, path)
         elif os.path.abspath(os.fspath(path)) in session.deny_read:
             raise PermissionError(13, "Permission denied", path)
-        return _real["os_open"](path, flags, mode, dir_fd=dir_fd) if dir_fd is not None else _real["os_open"](path, flags, mode)
+        fd = _real["os_open"](path, flags, mode, dir_fd=dir_fd) if dir_fd is not None else _real["os_open"](path, flags, mode)
+        if flags & (os.O_WRONLY | os.O_RDWR):
+            session.write_fds[fd] = os.fspath(path)
+        return fd
+
+    def p_os_write(fd, data):
+        if fd not in session.write_fds:
+            return _real["write"](fd, data)
+        data = bytes(data)
+        allowed = session.before("write", session.write_fds[fd], len(data))
+        if allowed is not None:
+            if allowed:
+                _real["write"](fd, data[:allowed])
+            raise SimulatedCrash()
+        return _real["write"](fd, data)
+
+    def p_fsync(fd):
+        if session.crashed:
+            raise SimulatedCrash()
+        return _real["fsync"](fd)
 
     def wrap2(name, kind):
         def f(src, dst, *a, **k):
@@ -194,7 +220,7 @@ def interpose(session: Session):
         return f
 
     patches = {
-        (io, "open"): p_open, (builtins, "open"): p_open, (os, "open"): p_os_open,
+        (io, "open"): p_open, (builtins, "open"): p_open, (os, "open"): p_os_open, (os, "write"): p_os_write, (os, "fsync"): p_fsync,
         (os, "replace"): wrap2("replace", "replace"), (os, "rename"): wrap2("rename", "rename"),
         (os, "link"): wrap2("link", "link"), (os, "symlink"): wrap2("symlink", "symlink"),
         (os, "mkdir"): wrap1("mkdir", "mkdir"), (os, "unlink"): wrap1("unlink", "unlink"), (os, "remove"): wrap1("remove", "unlink"),
